@@ -96,6 +96,28 @@ func genC02(t *rapid.T) c02Case {
 		}
 		return c
 	}
+	if rapid.IntRange(0, 7).Draw(t, "directed8") == 0 {
+		// a leader that is deposed alive and elected again later: what it
+		// remembers of its followers' positions from its first term (they held an
+		// uncommitted tail then, which the term in between truncated) must not
+		// count in its second term
+		c.Steps = []c02Step{
+			{Op: "publish", N: rapid.IntRange(1, 3).Draw(t, "n0"), Policy: 2}, {Op: "settle"},
+			{Op: "crash", X: 2, Sel: 0}, // c goes away, stays in the ISR
+			{Op: "publish", N: rapid.IntRange(2, 4).Draw(t, "tail"), Policy: 1}, {Op: "settle"}, // a and b hold an uncommitted tail
+			{Op: "hold"}, {Op: "restart", X: 2}, // c is back but cannot catch up
+			{Op: "leader", X: 1, Sel: 0}, // c leads; a (alive) and b truncate the tail
+			{Op: "publish", N: 1, Policy: 2}, {Op: "settle"},
+			{Op: "hold"}, {Op: "leader", X: 0, Sel: 0}, // a leads again, without a restart
+			{Op: "crash", X: 1, Sel: 0}, // b goes away, stays in the ISR
+			{Op: "publish", N: rapid.IntRange(1, 2).Draw(t, "n1"), Policy: 2}, {Op: "settle"}, // reaches c only
+			{Op: "hold"}, {Op: "restart", X: 1}, // b is back but cannot catch up
+			{Op: "crash", X: 100, Sel: 0}, {Op: "leader", X: 0, Sel: 0}, // a fails, b is elected
+			{Op: "publish", N: 1, Policy: 2}, {Op: "settle"},
+			{Op: "restart", X: 100}, {Op: "settle"},
+		}
+		return c
+	}
 	if rapid.IntRange(0, 7).Draw(t, "directed7") == 0 {
 		// a replica outside the ISR has caught up, the leader commits one or two
 		// more messages on its own while replication is stalled, and then asks
